@@ -1106,9 +1106,12 @@ func runHist(t *testing.T, seed int64, n int, out *Out) {
 			}
 			if os.Getenv("VERIF_GOVPOOL") != "" && h.r.Intn(10) == 0 {
 				// governance rewrites one pool's parameters (oracle switch, swap fee)
-				if sh := h.govPoolShock(); sh != "" {
+				if sh, tx := h.govPoolShock(); sh != "" {
 					curShocks = append(curShocks, sh)
 					stats["govPool/applied"]++
+					if tx != nil {
+						txs = append(txs, tx)
+					}
 				}
 			}
 			if govShocks && h.r.Intn(6) == 0 {
